@@ -198,6 +198,10 @@ def run(ctx) -> None:
 
     _c04.rule_r2(ctx, an, rule="C18.R2")
 
+    # an announcement reaches whoever is listening: nothing but a listener's own exit ends its
+    # subscription (C10.R4)
+    include_rules(ctx, "c10", "C18.R3", only=("C10.R4",))
+
     # R5 wrappers add none
     for nm, w in an.ComponentContext.methods.items():
         ds = an.dispatch_calls(w)
